@@ -79,6 +79,11 @@ func Monitor(done func() bool, onQuiescent func(*Snapshot, Verdict) bool, wall t
 			time.Sleep(d)
 		}
 		if spins%64 == 0 && time.Since(start) > wall {
+			if snap.BusyInSDK() && time.Since(start) < 15*wall {
+				// a goroutine is still computing inside the SDK: that is not for a wall clock to judge. The case
+				// stays open, and a computation that never ends is the driver's CPU-time verdict for it.
+				continue
+			}
 			res.Outcome, res.Snap, res.Verdict = "inconclusive", snap, v
 			return res
 		}
@@ -101,4 +106,14 @@ func Settle(wall time.Duration) *Snapshot {
 		}
 		time.Sleep(50 * time.Microsecond)
 	}
+}
+
+// BusyInSDK reports whether some goroutine other than the monitor's is running (not blocked) inside SDK code.
+func (s *Snapshot) BusyInSDK() bool {
+	for _, g := range s.others {
+		if (g.State == "running" || g.State == "runnable") && g.Has("go.flow.arcalot.io/pluginsdk/") {
+			return true
+		}
+	}
+	return false
 }
